@@ -4,7 +4,7 @@ never size/index from header fields unchecked (R-ALLOC/R-GUARD with header field
 from vlib import fixtures
 import re
 
-from rules import order, openguard, taint
+from rules import order, openguard, taint, trunc
 from vlib.mir import Fn
 from vlib.run import Broken
 
@@ -20,7 +20,7 @@ def need(fx, fid):
 
 def run(ctx):
     fx = ctx.facts("default")
-    fixtures.run(ctx, ['order', 'taint'])
+    fixtures.run(ctx, ['order', 'taint', 'trunc'])
     R = "R-ORDER"
     f = need(fx, MV + "resize_to_capacity")
     ctx.analysed_fns.add(f.id)
@@ -78,6 +78,14 @@ def run(ctx):
     ctx.instance("loader.entries", n)
     ctx.instance("loader.closure_fns", len(res))
     ctx.floor("loader.entries", 20)
+    # a var_uint cut off by the end of the file is refused, not returned as a partial number
+    nt = 0
+    for fl in ("src/blob_store/reorder_map.rs", "src/io/mmap.rs"):
+        for fid in fx.fn_ids(fl):
+            if "::tests::" not in fid:
+                nt += trunc.check(ctx, Fn(fx.raw(fid)))
+    ctx.instance("R-TRUNC.decoders", nt)
+    ctx.floor("R-TRUNC.decoders", 2)
     return dict(
         level_note="decides ordering/durability structure, the open-time size comparison and unchecked use of header "
                    "fields; which earlier sync point a torn file reopens to and content equality after reopen are "
@@ -85,8 +93,9 @@ def run(ctx):
         explanation="R-ORDER: dominator / must-pass-through checks over resolved callees (File::set_len, create_mmap, "
                     "set_capacity, sync, write_all, sync_all, flush) in the named writers. R-GUARD.open: a deciding "
                     "comparison between a header-declared size and the file/mapping length dominates every Ok return "
-                    "of MmapVec::open. Loader closure: taint analysis with header fields as untrusted integers.",
-        trusted_base=["rustc nightly MIR", "zfacts", "rules/order.py", "rules/openguard.py", "rules/taint.py",
+                    "of MmapVec::open. Loader closure: taint analysis with header fields as untrusted integers. R-TRUNC: "
+                    "with the continuation-bit-clear edges removed, no Ok/Some result of a var_uint reader is reachable.",
+        trusted_base=["rustc nightly MIR", "zfacts", "rules/order.py", "rules/openguard.py", "rules/taint.py", "rules/trunc.py",
                       "the (function, event A, event B) table in props/C19.py"],
         rule_text="obligation = (function, ordered event pair) | open-time size guard | (loader sink, untrusted operand)",
     )
